@@ -1,0 +1,59 @@
+//go:build verif
+
+package tbtc
+
+import (
+	"context"
+
+	"github.com/keep-network/keep-core/pkg/protocol/inactivity"
+	"github.com/keep-network/keep-core/pkg/tecdsa/dkg"
+)
+
+// Verification hooks for property C13 (thin wrappers, no behaviour of their
+// own): the production result / claim signers and submitters built with their
+// own constructors around a chain handle supplied by the harness.
+
+// VerifC13NewDkgResultSigner wraps newDkgResultSigner.
+func VerifC13NewDkgResultSigner(
+	chain Chain,
+	dkgStartBlock uint64,
+) dkg.ResultSigner {
+	return newDkgResultSigner(chain, dkgStartBlock)
+}
+
+// VerifC13NewDkgResultSubmitter wraps newDkgResultSubmitter.
+func VerifC13NewDkgResultSubmitter(
+	chain Chain,
+	groupParameters *GroupParameters,
+	groupSelectionResult *GroupSelectionResult,
+	waitForBlock func(context.Context, uint64) error,
+) dkg.ResultSubmitter {
+	return newDkgResultSubmitter(
+		logger,
+		chain,
+		groupParameters,
+		groupSelectionResult,
+		waitForBlock,
+	)
+}
+
+// VerifC13NewInactivityClaimSigner wraps newInactivityClaimSigner.
+func VerifC13NewInactivityClaimSigner(chain Chain) inactivity.ClaimSigner {
+	return newInactivityClaimSigner(chain)
+}
+
+// VerifC13NewInactivityClaimSubmitter wraps newInactivityClaimSubmitter.
+func VerifC13NewInactivityClaimSubmitter(
+	chain Chain,
+	groupParameters *GroupParameters,
+	groupMembers []uint32,
+	waitForBlock func(context.Context, uint64) error,
+) inactivity.ClaimSubmitter {
+	return newInactivityClaimSubmitter(
+		logger,
+		chain,
+		groupParameters,
+		groupMembers,
+		waitForBlock,
+	)
+}
